@@ -1,9 +1,9 @@
 package mcrt
 
 import (
-	"runtime"
 	"fmt"
 	"reflect"
+	"runtime"
 	"sort"
 )
 
